@@ -1113,6 +1113,10 @@ class TwoDSpectrumBase(DataSaveable):
                                 +"resolution to add data with resolution = "
                                 +resolution)
 
+        # the storage keeps its own copy of the added values (the first 
+        # addition to an address used to store the array of the caller)
+        data = numpy.array(data)
+
         if resolution == "pathways":
             if dtype in _ptypes:
                 if tag is not None:
